@@ -40,6 +40,10 @@ func validateOnce(q, schema, cur string) (res valResult) {
 		}
 	}()
 	tc, err := mpath.CueValidate(q, schema, cur)
+	return summarise(tc, err)
+}
+
+func summarise(tc mpath.CanBeAPart, err error) (res valResult) {
 	res.Class = "ok"
 	if err != nil {
 		res.Class = "err"
@@ -56,11 +60,13 @@ func validateOnce(q, schema, cur string) (res valResult) {
 		if merr == nil {
 			s := stripIDs(b)
 			res.Tree = s
-			sum := sha256.Sum256([]byte(s))
-			res.TreeHash = hex.EncodeToString(sum[:8])
-			// offered fields at the root part
 			var tree map[string]any
-			if json.Unmarshal(b, &tree) == nil {
+			if json.Unmarshal([]byte(s), &tree) == nil {
+				// the root echoes the query text as given: not part of the comparison across re-spellings
+				delete(tree, "string")
+				nb, _ := json.Marshal(tree)
+				sum := sha256.Sum256(nb)
+				res.TreeHash = hex.EncodeToString(sum[:8])
 				if parts, ok := tree["parts"].([]any); ok && len(parts) > 0 {
 					if p0, ok := parts[0].(map[string]any); ok {
 						if av, ok := p0["available"].(map[string]any); ok {
@@ -98,7 +104,79 @@ func validateJob(payload string) string {
 	return hex.EncodeToString(b)
 }
 
-func init() { h.Handlers["validate"] = validateJob }
+// The "valhist" job: a history of calls in one process; every returned tree
+// is kept and marshalled again after the whole history has run.
+// payload: call;call;…  with call = query-hex,schema-hex,current-hex
+// reply: hex(JSON {results: [...], stable: bool})
+type histReply struct {
+	Results []valResult `json:"results"`
+	Stable  bool        `json:"stable"`
+	Note    string      `json:"note,omitempty"`
+}
+
+func valhistJob(payload string) string {
+	var rep histReply
+	rep.Stable = true
+	type kept struct {
+		tc    mpath.CanBeAPart
+		first string
+	}
+	var keep []kept
+	for _, cs := range strings.Split(payload, ";") {
+		f := strings.Split(cs, ",")
+		if len(f) != 3 {
+			return "badcase"
+		}
+		var a [3]string
+		for i := range f {
+			b, err := hex.DecodeString(f[i])
+			if err != nil {
+				return "badcase"
+			}
+			a[i] = string(b)
+		}
+		r, tc := validateKeep(a[0], a[1], a[2])
+		rep.Results = append(rep.Results, r)
+		if tc != nil {
+			keep = append(keep, kept{tc, r.Tree})
+		}
+	}
+	for _, k := range keep {
+		func() {
+			defer func() {
+				if r := recover(); r != nil {
+					rep.Stable = false
+					rep.Note = fmt.Sprint(r)
+				}
+			}()
+			b, err := json.Marshal(k.tc)
+			if err != nil || stripIDs(b) != k.first {
+				rep.Stable = false
+				rep.Note = "a tree returned earlier marshals differently after later calls"
+			}
+		}()
+	}
+	b, _ := json.Marshal(rep)
+	return hex.EncodeToString(b)
+}
+
+func validateKeep(q, schema, cur string) (res valResult, tc mpath.CanBeAPart) {
+	defer func() {
+		if r := recover(); r != nil {
+			res = valResult{Class: "panic", Err: fmt.Sprint(r)}
+			tc = nil
+		}
+	}()
+	var err error
+	tc, err = mpath.CueValidate(q, schema, cur)
+	res = summarise(tc, err)
+	return res, tc
+}
+
+func init() {
+	h.Handlers["validate"] = validateJob
+	h.Handlers["valhist"] = valhistJob
+}
 
 func valJob(q, schema, cur string) h.Job {
 	return h.Job{Kind: "validate", Payload: hex.EncodeToString([]byte(q)) + "\t" + hex.EncodeToString([]byte(schema)) + "\t" + hex.EncodeToString([]byte(cur))}
